@@ -301,7 +301,20 @@ impl Out {
     }
 }
 
+/// counts ticks of left-behind tasks in the high half of a participant's poll counter
+/// (everything runs on one thread)
+struct SendCounter(usize);
+unsafe impl Send for SendCounter {}
+impl SendCounter {
+    fn bump(&self) {
+        let rc: Rc<RefCell<u64>> = unsafe { Rc::from_raw(self.0 as *const RefCell<u64>) };
+        *rc.borrow_mut() += 1 << 32;
+        std::mem::forget(rc);
+    }
+}
+
 async fn outcome_program(o: Out, polls: Rc<RefCell<u64>>) -> turmoil::Result {
+    let polls2 = polls.clone();
     struct CountPolls<F>(F, Rc<RefCell<u64>>);
     impl<F: std::future::Future + Unpin> std::future::Future for CountPolls<F> {
         type Output = F::Output;
@@ -359,16 +372,20 @@ async fn outcome_program(o: Out, polls: Rc<RefCell<u64>>) -> turmoil::Result {
                     l.1.push(0);
                     l.0 - 1
                 });
+                let hi = SendCounter(Rc::into_raw(polls2.clone()) as usize);
                 tokio::task::spawn_local(async move {
                     loop {
                         tokio::time::sleep(ms(1)).await;
                         LEFTOVER.with(|l| l.borrow_mut().1[inc] += 1);
+                        hi.bump();
                     }
                 });
+                let hi2 = SendCounter(Rc::into_raw(polls2.clone()) as usize);
                 tokio::spawn(async move {
                     loop {
                         tokio::time::sleep(ms(1)).await;
                         LEFTOVER.with(|l| l.borrow_mut().1[inc] += 1);
+                        hi2.bump();
                     }
                 });
                 tokio::time::sleep(ms(t)).await;
@@ -499,7 +516,7 @@ pub fn c11_scenario(ch: &mut Chooser, thorough: bool) -> Exec {
         menu_a.push(Out::Ok(t));
         menu_a.push(Out::Err(t));
     }
-    menu_a.extend([Out::PanicMain(0), Out::PanicMain(3), Out::PanicSpawnedAwaited(1), Out::PanicDetached(3), Out::ErrSpawnedAwaited(3), Out::ErrDetachedThenOk(1)]);
+    menu_a.extend([Out::PanicMain(0), Out::PanicMain(3), Out::PanicSpawnedAwaited(1), Out::PanicDetached(3), Out::ErrSpawnedAwaited(3), Out::ErrDetachedThenOk(1), Out::OkLeavingTasks(1)]);
     let a = *ch.of("client_a", &menu_a);
     let b = *ch.of("client_b", &[Out::Absent, Out::Ok(0), Out::Ok(5), Out::Never, Out::Ok(7)]);
     let h = *ch.of("host", &[Out::Absent, Out::Never, Out::Err(1), Out::Err(7), Out::Ok(1), Out::PanicMain(3), Out::PanicDetached(1), Out::OkLeavingTasks(1)]);
@@ -621,7 +638,7 @@ pub fn c11_scenario(ch: &mut Chooser, thorough: bool) -> Exec {
             violation = Some(Violation::new("unexpected-panic", format!("{obs}; stepping on after the error was returned panicked: {}", vx_core::take_last_panic().unwrap_or_default())));
         } else if !panicked {
             for (i, (o, _)) in parts.iter().enumerate() {
-                if *o != Out::Absent && definitely_finished(*o) && *polls[i].borrow() != before[i] {
+                if *o != Out::Absent && definitely_finished(*o) && (*polls[i].borrow() & 0xffff_ffff) != (before[i] & 0xffff_ffff) {
                     violation = Some(Violation::new(
                         "polled-after-finish",
                         format!("{obs}; software #{i} ({o:?}) had finished before the error was returned at {at}ms but was polled {} more times by later steps", *polls[i].borrow() - before[i]),
@@ -660,8 +677,41 @@ pub fn c11_scenario(ch: &mut Chooser, thorough: bool) -> Exec {
             }
         }
     }
+    // a second run without any new client: every client has finished, so it performs exactly
+    // one more step — in which still-running host software may fail
+    if violation.is_none() && matches!(got, RunRes::Ok(_)) && !no_clients && !by_step && !matches!(h_eff, Out::OkLeavingTasks(_)) && ch.flag("second_run_without_a_new_client") {
+        let before = sim.elapsed().as_millis() as u64;
+        let r = vx_core::catch(|| sim.run());
+        let after = sim.elapsed().as_millis() as u64;
+        // the host's terminating event, if it is still to come
+        let ev: Option<(u64, char)> = match h_eff {
+            Out::Absent | Out::Never => None,
+            o => o.panic_time().map(|t| (t, 'p')).or_else(|| o.finish().filter(|f| f.1 == 'e')).filter(|(t, _)| *t >= before),
+        };
+        let inside = ev.map(|(t, _)| t > before && t < before + tick).unwrap_or(false);
+        let boundary = ev.map(|(t, _)| t == before || t == before + tick).unwrap_or(false);
+        let ok = match &r {
+            Ok(Ok(())) => !inside && after == before + tick,
+            Ok(Err(_)) => (inside || boundary) && ev.map(|e| e.1 == 'e').unwrap_or(false),
+            Err(_) => (inside || boundary) && ev.map(|e| e.1 == 'p').unwrap_or(false),
+        };
+        if !ok {
+            violation = Some(Violation::new(
+                "second-run",
+                format!(
+                    "{obs}; a second run() without new clients returned {:?} with elapsed {after}ms (was {before}ms): it must perform exactly one step of {tick}ms, in which host {h_eff:?} {}",
+                    match &r {
+                        Ok(Ok(())) => "Ok".to_string(),
+                        Ok(Err(e)) => format!("Err({})", if e.to_string().contains("panicked") { "a task panicked" } else { "software error" }),
+                        Err(_) => "a panic".to_string(),
+                    },
+                    if inside { "fails" } else if boundary { "may fail (boundary)" } else { "does not fail" }
+                ),
+            ));
+        }
+    }
     // a second run after registering another client continues from where the first stopped
-    if violation.is_none() && matches!(got, RunRes::Ok(_)) && !no_clients && !by_step {
+    else if violation.is_none() && matches!(got, RunRes::Ok(_)) && !no_clients && !by_step {
         let before = sim.elapsed();
         let p = Rc::new(RefCell::new(0));
         sim.client("late", outcome_program(Out::Ok(1), p));
@@ -669,6 +719,22 @@ pub fn c11_scenario(ch: &mut Chooser, thorough: bool) -> Exec {
         let ok = matches!(r, Ok(Ok(()))) || (matches!(r, Ok(Err(_)) | Err(_)) && h_eff != Out::Absent && h_eff != Out::Never && h_eff.finish().map(|f| f.1 != 'o').unwrap_or(true));
         if !ok || (matches!(r, Ok(Ok(()))) && sim.elapsed() <= before && before < Duration::from_millis(dur)) {
             violation = Some(Violation::new("second-run", format!("{obs}; second run after registering a client that finishes after 1ms returned {:?} with elapsed {:?} (was {:?})", r.map(|x| x.map_err(|e| e.to_string())), sim.elapsed(), before)));
+        }
+    }
+    // tasks left behind by a client whose main future has returned are not polled by later
+    // steps (of this run or of the next): they tick at most until the end of the step in
+    // which the client finished
+    if violation.is_none() && !matches!(got, RunRes::Panic) && !no_clients {
+        if let Out::OkLeavingTasks(t) = a {
+            let bound = 2 * tick * (t / tick + 1);
+            let _ = vx_core::catch(|| sim.step());
+            let ticks = *polls[1].borrow() >> 32;
+            if ticks > bound {
+                violation = Some(Violation::new(
+                    "polled-after-finish",
+                    format!("{obs}; the two tasks left behind by client a (finished at {t}ms) ticked {ticks} times in total; after its step they must not be polled again (at most {bound})"),
+                ));
+            }
         }
     }
     let feats = match got {
